@@ -130,7 +130,7 @@ template <int OP> void s_copy(Ctx& c) {
     case COPY: { PR t(a); (void) t.is_empty(); break; }
     case ASSIGN: b = a; break;
     case SWAP: { PR t(a); t.m_swap(b); swap(t, b); break; }
-    case GETTERS: { Constraint_System cs(a.constraints()); Constraint_System mcs(a.minimized_constraints()); Congruence_System cg(a.congruences()); Congruence_System mcg(a.minimized_congruences()); PR t(cs); PR u(cg); t.intersection_assign(u); b.m_swap(t); break; }
+    case GETTERS: { Constraint_System cs(a.constraints()); Constraint_System mcs(a.minimized_constraints()); Congruence_System cg(a.congruences()); Congruence_System mcg(a.minimized_congruences()); PR t(a.space_dimension()); t.refine_with_constraints(mcs); PR u(a.space_dimension()); u.refine_with_congruences(cg); t.intersection_assign(u); b.m_swap(t); break; }
     case FROM_POLY: { PR t(ph); b.m_swap(t); break; }
     case FROM_GRID: { PR t(gr); b.m_swap(t); break; }
     case DUMP: { std::ostringstream o; a.ascii_dump(o); out = o.str(); break; }
